@@ -311,6 +311,8 @@ where
                 let packet_id = pubrel.packet_identifier;
                 Self::ack::<PubcompReason>(tx, packet_id).await?
             }
+            // Not expected once the connection is established, nothing awaits them.
+            RxPacket::Connack(_) | RxPacket::Auth(_) => {}
             other => {
                 let action_id = utils::rx_action_id(&other);
 
